@@ -57,7 +57,9 @@ class Ctx:
         return lib.rng_for(self.seed, self.prop, *salt)
 
     def out_of_time(self):
-        return self.deadline is not None and time.time() > self.deadline
+        # the wall-clock budget of the run, or more than enough unlisted failures to report (a change that makes every
+        # case slower and slower must not keep the check running)
+        return (self.deadline is not None and time.time() > self.deadline) or self._fail_counts.get(None, 0) >= 200
 
     def model(self, req):
         if self.driver is None:
@@ -203,6 +205,7 @@ def main(argv):
 
     # 3 + 4. correspondence and oracle
     ctx = Ctx(prop, tier, seed, scale=float(os.environ.get('VERIF_QUICK_SCALE', '3')) if tier == 'quick' else 1.0)
+    ctx.deadline = time.time() + (300 if tier == 'quick' else 3000)
     if not driver_ok:
         if 'CGV/Gen/' in out or 'CGV.Gen.' in out:
             # the definitions REGENERATED FROM /repo no longer compile (the translated source left the shape the
